@@ -306,6 +306,8 @@ class Fn:
                                    'target': ast.unparse(tgt.value)[:60], 'root': root, 'definite': self.depth == 0})
         elif isinstance(tgt, ast.Name) and aug:
             root = env.get(tgt.id, UNKNOWN)
+            if root[0] == 'ornew':
+                root = MAY(root[1], False)
             if root[0] in ('param', 'may') and not root[2]:
                 # a bare parameter may be an immutable number (axis += 1): not definite, but POSSIBLE (x_power *= x)
                 root = MAY(root[1], False)
@@ -746,6 +748,32 @@ def render_summaries():
     return '\n'.join(out), len(rows), skipped
 
 
+HAND_WRITTEN = {'copy', 'clone', 'wod', '__neg__', '__abs__', '__getitem__', 'reshape', 'swap_axes', 'broadcast_to',
+                'inverse', 'rot90', 'mul_units', 'div_units'}
+
+
+def coverage(skipped):
+    """how many of the sweep's (class, member) pairs are bound by a proved summary (generated_frame / frame) and how
+    many rest on the sweep alone"""
+    import c07_sweep as S
+    have = {f.qual for f in FUNS} - set(skipped)
+    rows = S.api_table()
+    gen = hand = 0
+    only = set()
+    for cname, name, how, owner in rows:
+        q = '%s.%s' % (owner, name)
+        if q in have:
+            gen += 1
+        elif name in HAND_WRITTEN:
+            hand += 1
+        else:
+            only.add(q)
+        if q in have and name in HAND_WRITTEN:
+            pass
+    return {'pairs': len(rows), 'with_generated_summary': gen, 'with_handwritten_summary_only': hand,
+            'sweep_only': len(rows) - gen - hand, 'sweep_only_members': sorted(only)[:80]}
+
+
 def lean_str(s):
     return '"' + s.replace('\\', '\\\\').replace('"', '\\"') + '"'
 
@@ -787,8 +815,12 @@ def regen():
     if not os.path.exists(path2) or open(path2).read() != body2:
         with open(path2, 'w') as f:
             f.write(body2)
+    cov = coverage(skipped)
     tainted = [s for s in sites if s['root'][0] == 'param' and (s['fn'], s['kind'], s['target']) not in ALLOW]
-    return {'obligations': 2, 'summaries_generated': nsum, 'not_summarised_unknown_root': len(skipped), 'functions_scanned': nfun, 'write_sites': len(sites),
+    return {'obligations': 2, 'summaries_generated': nsum, 'not_summarised_unknown_root': len(skipped),
+            'not_summarised': sorted(skipped), 'coverage': cov,
+            'possible_sites': ['%s:%d %s %s' % (s['fn'], s['line'], s['kind'], s['target']) for s in sites
+                               if s['root'][0] == 'may'], 'functions_scanned': nfun, 'write_sites': len(sites),
             'param_rooted_not_allowed': ['%s:%d %s %s' % (s['fn'], s['line'], s['kind'], s['target']) for s in tainted],
             'table': 'lean/PMV/Gen/WriteSites.lean'}
 
